@@ -232,6 +232,8 @@ struct Registrar {
     }
 };
 
+void emergency_finish(const Outcome& o); // main.cpp: end a forked execution at once with this outcome
+
 // small helpers
 std::string hex(u64 v, int width = 0);
 std::string fmt(const char* f, ...) __attribute__((format(printf, 1, 2)));
